@@ -600,7 +600,12 @@ func runPipeCase(c *PipeCase) *PipeResult {
 					case "X":
 						w.pl.FireChannelException(firedEx)
 					case "I":
-						w.pl.FireChannelInactive(firedEx)
+						// the payload is data, not routing: every other inactive event carries a nil exception (Close(nil))
+						if (int64(nfire)+c.Seed)%2 == 0 {
+							w.pl.FireChannelInactive(nil)
+						} else {
+							w.pl.FireChannelInactive(firedEx)
+						}
 					case "E":
 						w.pl.FireChannelEvent("event")
 					}
